@@ -483,6 +483,18 @@ func cmdReflectReplay(args []string) {
 	n, bad, reads, states := 0, 0, 0, 0
 	nilOriginsN, nilChecks := 0, 0
 	byOp := map[string]int{} // vacuity scan: (operation, result kind) pairs actually exercised
+	// the state graph as exported: abstract state (canonical JSON) per history, transitions,
+	// expected reads per state -- for the all-histories pass below
+	type trans struct {
+		ret any
+		to  string
+	}
+	stateKey := func(j any) string { b, _ := json.Marshal(proj.Normalize(j, md)); return string(b) }
+	histKey := map[string]string{"[]": stateKey(map[string]any{"f": map[string]any{}, "u": []any{}})}
+	hk := func(p []int) string { return fmt.Sprint(p) }
+	transOf := map[string]map[int]trans{}
+	readsOf := map[string][]any{}
+	stateJSON := map[string]any{}
 	emit := func(v reflVerdict) {
 		bad++
 		b, _ := json.Marshal(v)
@@ -514,6 +526,9 @@ func cmdReflectReplay(args []string) {
 				die("state: %v", err)
 			}
 			states++
+			if k, ok := histKey[hk(e.P)]; ok {
+				readsOf[k] = e.Reads
+			}
 			p := newPulsar(mt)
 			d := dynamicpb.NewMessage(md)
 			for _, k := range e.P {
@@ -550,6 +565,17 @@ func cmdReflectReplay(args []string) {
 				die("edge: %v", err)
 			}
 			n++
+			if src, ok := histKey[hk(e.P)]; ok && e.I > 0 {
+				to := stateKey(e.To)
+				if transOf[src] == nil {
+					transOf[src] = map[int]trans{}
+				}
+				transOf[src][e.I] = trans{e.Ret, to}
+				stateJSON[to] = proj.Normalize(e.To, md)
+				if _, seen := histKey[hk(append(append([]int(nil), e.P...), e.I))]; !seen {
+					histKey[hk(append(append([]int(nil), e.P...), e.I))] = to
+				}
+			}
 			p := newPulsar(mt)
 			d := dynamicpb.NewMessage(md)
 			for _, k := range e.P {
@@ -590,7 +616,87 @@ func cmdReflectReplay(args []string) {
 			}
 		}
 	}
-	b, _ := json.Marshal(map[string]any{"summary": true, "edges": n, "bad": bad, "ops": len(ops), "rdops": len(rdops), "reads": reads, "states": states, "nil_origins": nilOriginsN, "nil_checks": nilChecks, "by_op": byOp})
+	// ---- all-histories pass. The graph replay above reaches every abstract state through ONE
+	// representative history; code can distinguish histories the model identifies (a cached or
+	// shared object, a slice with spare capacity). Here EVERY operation sequence up to the
+	// model's bound is executed on a fresh message, following the exported transitions for the
+	// expected results, the expected final state and the expected answers of all read operations.
+	treeHist, treeReads := 0, 0
+	{
+		maxLen := 0
+		for h := range histKey {
+			if c := strings.Count(h, " ") + 1; h != "[]" && c > maxLen {
+				maxLen = c
+			}
+		}
+		init := histKey["[]"]
+		total := 1
+		for i := 0; i < maxLen; i++ {
+			total *= len(ops)
+		}
+		stride := 1
+		if cost := total * (len(rdops) + 1); cost > 4000000 {
+			stride = cost/4000000 + 1
+		}
+		counter := 0
+		var seq []int
+		var rec func(cur string, depth int)
+		rec = func(cur string, depth int) {
+			if depth >= 2 { // length-1 histories are the representatives themselves
+				counter++
+				if counter%stride == 0 {
+					treeHist++
+					p := newPulsar(mt)
+					key := init
+					okRun := true
+					for _, k := range seq {
+						t := transOf[key][k]
+						rp := applyOp(p.ProtoReflect(), ops[k-1], true)
+						if !retEq(rp, t.ret) {
+							o := ops[k-1]
+							emit(reflVerdict{N: treeHist, P: append([]int(nil), seq...), I: k, Op: o, What: "tree:ret", Who: "pulsar", Obs: rp, Want: t.ret, Shape: fieldShape(md, o)})
+							okRun = false
+							break
+						}
+						key = t.to
+					}
+					if okRun {
+						last := ops[seq[len(seq)-1]-1]
+						var st any
+						if pn := catch(func() { st = proj.Normalize(proj.Project(proj.Impl(p), proj.WrapImpl), md) }); pn != "" || !jsonEq(st, stateJSON[key]) {
+							emit(reflVerdict{N: treeHist, P: append([]int(nil), seq...), Op: last, What: "tree:state", Who: "pulsar", Obs: st, Want: stateJSON[key], Shape: fieldShape(md, last)})
+						} else if exp, ok := readsOf[key]; ok {
+							for j, ro := range rdops {
+								if j >= len(exp) {
+									break
+								}
+								treeReads++
+								if rp := applyOp(p.ProtoReflect(), ro, true); !retEq(rp, exp[j]) {
+									r := ro
+									emit(reflVerdict{N: treeHist, P: append([]int(nil), seq...), Op: last, What: "tree:read", Who: "pulsar", Read: &r, Obs: rp, Want: exp[j], Shape: fieldShape(md, ro)})
+									break
+								}
+							}
+						}
+					}
+				}
+			}
+			if depth == maxLen {
+				return
+			}
+			for k := 1; k <= len(ops); k++ {
+				t, ok := transOf[cur][k]
+				if !ok {
+					continue
+				}
+				seq = append(seq, k)
+				rec(t.to, depth+1)
+				seq = seq[:len(seq)-1]
+			}
+		}
+		rec(init, 0)
+	}
+	b, _ := json.Marshal(map[string]any{"summary": true, "tree_histories": treeHist, "tree_reads": treeReads, "edges": n, "bad": bad, "ops": len(ops), "rdops": len(rdops), "reads": reads, "states": states, "nil_origins": nilOriginsN, "nil_checks": nilChecks, "by_op": byOp})
 	w.Write(b)
 	w.WriteByte('\n')
 	_ = fmt.Sprint
